@@ -205,6 +205,41 @@ func treeLeaves(v reflect.Value, l *leaves) {
 	}
 }
 
+// Go types of the nodes of the tree
+func treeKinds(v reflect.Value, m map[string]bool) {
+	if !v.IsValid() {
+		return
+	}
+	t := v.Type()
+	if t == vh.TimeType {
+		return
+	}
+	switch t.Kind() {
+	case reflect.Interface, reflect.Ptr:
+		if !v.IsNil() {
+			treeKinds(v.Elem(), m)
+		}
+	case reflect.Slice, reflect.Array:
+		if t.Elem().Kind() == reflect.Uint8 {
+			m["[]uint8"] = true
+			return
+		}
+		m[t.Kind().String()] = true
+		for i := 0; i < v.Len(); i++ {
+			treeKinds(v.Index(i), m)
+		}
+	case reflect.Map:
+		m[t.String()] = true
+		it := v.MapRange()
+		for it.Next() {
+			treeKinds(it.Key(), m)
+			treeKinds(it.Value(), m)
+		}
+	default:
+		m[t.String()] = true
+	}
+}
+
 // names of the struct fields the encoder writes as map keys (StructToArray off)
 func fieldNames(v reflect.Value, out *[]string) {
 	t := v.Type()
@@ -614,6 +649,28 @@ func (c *ctx) one(r *vh.Rng, idx int, wantModel bool) {
 		return
 	}
 	cj["tree"] = trunc(vh.Canon(g), 1500)
+	// the option vector decides the Go types of the tree's nodes
+	kinds := map[string]bool{}
+	treeKinds(reflect.ValueOf(g), kinds)
+	bad := ""
+	switch {
+	case n.raw2str && kinds["[]uint8"]:
+		bad = "RawToString:[]byte-leaf"
+	case n.signed && kinds["uint64"]:
+		bad = "SignedInteger:uint64-leaf"
+	case n.mapStr && kinds["map[interface {}]interface {}"]:
+		bad = "MapType:map[interface{}]interface{}-node"
+	case !n.mapStr && F != "json" && kinds["map[string]interface {}"]:
+		bad = "MapType:map[string]interface{}-node"
+	case n.prefArr && kinds["slice"]:
+		bad = "PreferArrayOverSlice:slice-node"
+	case !n.prefArr && kinds["array"]:
+		bad = "PreferArrayOverSlice:array-node"
+	}
+	if bad != "" {
+		sum.FailC("trans", "c15:"+F+":option-ignored:"+bad, "the generic tree holds a node of a Go type the schema-less options exclude", cj)
+		return
+	}
 	nF := vh.FormatNorm(F, oF)
 	// numbers and strings of the tree == those of the value
 	var sl, tl leaves
